@@ -8,12 +8,14 @@ package props
 // instant) and take a generated virtual duration.
 
 import (
+	"io"
 	"fmt"
 	"sort"
 	"sync"
 	"testing"
 	"time"
 
+	"github.com/Comcast/rulio/core"
 	"github.com/Comcast/rulio/cron"
 	"github.com/gorhill/cronexpr"
 	"pgregory.net/rapid"
@@ -23,6 +25,12 @@ import (
 
 type c16Case struct {
 	Ops []op `json:"ops"`
+	// StretchMs > 0: the cron's context logs, and its LogHook sleeps that
+	// long (virtual time) at the record "Cron.schedule" whenever that is not
+	// written from one of the harness's own Add calls, i.e. when the firing
+	// goroutine re-schedules a recurring job after its function returned.
+	// Harness operations then fall into that moment.
+	StretchMs int `json:"stretchMs,omitempty"`
 }
 
 // (the last two have no occurrence in the future: a year that is over, a day
@@ -34,6 +42,9 @@ const c16Pause = 700 * time.Millisecond
 func genC16(t *rapid.T) c16Case {
 	var c c16Case
 	n := rapid.IntRange(2, 16).Draw(t, "nops")
+	if rapid.IntRange(0, 2).Draw(t, "stretch?") == 0 {
+		c.StretchMs = rapid.SampledFrom([]int{1, 50, 300}).Draw(t, "stretch")
+	}
 	ids := []string{"j1", "j2", "j3", "j4"}
 	for i := 0; i < n; i++ {
 		l := fmt.Sprintf("op%d", i)
@@ -105,6 +116,17 @@ func runC16(c c16Case) *vlib.Outcome {
 		time.Sleep(next.Sub(n))
 	}
 	ctx := newCtx()
+	inHarnessCall := false
+	if c.StretchMs > 0 && c.StretchMs <= 2000 {
+		ctx.Verbosity = core.EVERYTHING
+		ctx.Logger = core.NewSimpleLogger(io.Discard)
+		ctx.LogHook = func(level core.LogLevel, args ...interface{}) {
+			if len(args) > 1 && args[1] == "Cron.schedule" && !inHarnessCall {
+				time.Sleep(time.Duration(c.StretchMs) * time.Millisecond)
+			}
+		}
+		o.Label("reschedule-stretched")
+	}
 	cr, err := cron.NewCron(cron.NewCronBroadcaster(), c16Pause, "verif", 1000)
 	if err != nil {
 		o.Fail("NEW", "%v", err)
@@ -183,7 +205,10 @@ func runC16(c c16Case) *vlib.Outcome {
 				}
 				return nil
 			}
-			if err := cr.Add(ctx, x.Id, g.schedule, fn); err != nil {
+			inHarnessCall = true
+			err := cr.Add(ctx, x.Id, g.schedule, fn)
+			inHarnessCall = false
+			if err != nil {
 				if g.never {
 					// refusing a schedule without a future occurrence
 					// is fine (the job of that id, if any, stays)
@@ -376,8 +401,9 @@ func runC16(c c16Case) *vlib.Outcome {
 			}
 			prev = f.Add(g.dur)
 		}
-		if g.dur == 0 {
-			// once per occurrence while running
+		if g.dur == 0 && c.StretchMs == 0 {
+			// once per occurrence while running (a stretched
+			// re-scheduling takes time, like a slow job function)
 			stop := end
 			if !g.removedAt.IsZero() {
 				stop = g.removedAt
